@@ -417,7 +417,7 @@ def main():
         "coverage": {
             "explanation": cfg.get("explanation", "") + " Technique: bounded symbolic execution of the real functions (Go SSA of /repo's working tree, regenerated this run) with an SMT solver (z3) deciding every branch feasibility and every assertion for all values of the symbolic inputs within the stated bounds.",
             "evaluations": tot["paths"], "distinct_nontrivial": nontrivial,
-            "rule": "evaluations = symbolic paths explored (each path is a distinct decision sequence and stands for all inputs satisfying its path condition); distinct_nontrivial = paths (counted by the engine) that reached at least one harness assertion with a satisfiable path condition",
+            "rule": "evaluations = symbolic paths explored (each path is a distinct decision sequence and stands for all inputs satisfying its path condition); distinct_nontrivial = paths (counted by the engine) that reached at least one harness assertion or reachability witness with a satisfiable path condition",
             "obligations": oblig, "discharged": discharged,
             "solver_queries": tot["queries"], "solver_wall_s": round(tot["solver_s"], 2), "inconclusive_paths": tot["inconcl"],
             "checker_cmd": "python3 /verif/check.py %s --tier %s" % (pid, tier),
